@@ -222,9 +222,39 @@ def rule_offsets(facts):
     return r
 
 
+def rule_reset(facts):
+    """The bound `bytes produced` is counted since the last dictionary reset: the reset must happen for exactly the
+    control bytes the format prescribes (C02.R1, dictionary part) and must empty the window."""
+    from rules import C02
+    r = report.RuleResult("C09.R4", "the LZMA2 window is emptied at exactly the dictionary resets the format prescribes")
+    t = C02.rule_table(facts)
+    for f in t.findings:
+        if "reset_dict" in f.key or "floor" in f.key or "uncompressed" in f.key:
+            f.rule = "C09.R4"
+            r.findings.append(f)
+            r.obligations += 1
+    b = pat.body_of(facts, "LzAccumBuffer::reset")
+    r.need("LzAccumBuffer::reset", b is not None)
+    r.sites = 2
+    if b is not None:
+        tm = Terms(b)
+        clears = [blk for blk in b.calls() if (flow.callee(blk.term) or "").endswith(("Vec::clear", "Vec::truncate")) and
+                  pat.has_field(tm.of_operand(blk.term.args[0]), "buf")]
+        zero = [s for blk in b.blocks for s in blk.stmts if s.k == "assign" and s.place.proj and s.place.proj[-1][0] == "field" and
+                s.place.proj[-1][2] == "len" and s.rv.k == "use" and s.rv.op.const_int() == 0]
+        if clears and zero:
+            r.ok("effect", {"reset": "buf.clear(); len = 0"})
+        else:
+            r.bad("reset|effect", "a dictionary reset does not empty the window (buf cleared: %s, len zeroed: %s)" % (bool(clears), bool(zero)), pat.where(b))
+    if not r.findings:
+        r.ok("evaluation", {"dictionary reset": "for exactly the control bytes >= 0xE0 and status 1"})
+    return r
+
+
 def run(ctx, t0):
     facts = ctx.facts()
-    rules = [rule_guards(facts), rule_privacy(facts), rule_offsets(facts)]
+    pat.FACTS = facts
+    rules = [rule_reset(facts), rule_guards(facts), rule_privacy(facts), rule_offsets(facts)]
     expl = ("Static: for each implementor of the window trait (enumerated from the impl list) the distance guards are "
             "located by the provenance of their operands, their failing edges must reach Err only and they must "
             "dominate every buffer access and append of the function; field privacy shows the module is the only "
